@@ -18,6 +18,7 @@ PROPS = {
     'C05': {'units': ['chal'], 'kani': [], 'exclude': r'canonical_width'},
     'C12': {'units': ['bits', 'chal'], 'kani': [], 'only': {'chal': r'canonical_width'}},
     'C15': {'units': ['shape'], 'kani': []},
+    'C09': {'units': ['prep'], 'kani': []},
     'C08': {'units': ['mmcs'], 'kani': []},
     'C16': {'units': ['meta'], 'kani': []},
     'C11': {'units': ['air', 'run19'], 'kani': [], 'only': {'run19': r'execute_alu_op'}},
@@ -143,8 +144,23 @@ META['C08'] = {
             'debug_assert in the code), boolean bits.',
 }
 
+META['C09'] = {
+    'technique': 'Verus contracts + ghost bus-role accounting on the extracted real preprocessing function',
+    'text': 'Deductive proof, for every op list (any aliasing between constants, public/private inputs, hint outputs, ALU and non-primitive outputs), about the bus roles that '
+            'Circuit::generate_preprocessed_columns EMITS: ghost counters are updated from the emitted creator/reader flags themselves, and the loop invariants require that no slot ever has two '
+            'creators, that the `defined` table is exactly "has a creator", that the reader list passed to increment_ext_reads is exactly the flag-derived reader list, and that ext_reads equals '
+            'the number of emitted reader roles (PreprocessedColumns::increment_ext_reads is proved to count every occurrence). The one-creator obligation fails in the Const/Public arms and in four '
+            'operand-alias cases of the ALU arm: recorded findings C09-two-creators and C09-alias-double-creator; everything else is discharged.',
+    'note': 'Not decided: that every slot that is READ has a creator (needs the lowering invariants of the whole builder pipeline), the multiplicity conversion in circuit-prover/src/common.rs, '
+            'non-primitive plugin preprocessing (opaque: may only add reads). Assumed: realistic sizes (< 2^19 ops, < 4096 output elements per non-primitive op) so u32 read counters do not overflow; '
+            'flag values 0/1/2 distinct; dup_npo_outputs bookkeeping abstracted.',
+}
+
 NOT_APPLICABLE = {
     'C01': 'whole-verifier equivalence with the external native verifier (p3-uni-stark / p3-batch-stark): needs a relational spec of ~1.5 kLoC of dependency code across four generic traits; no per-function contract within reach expresses it. Its parts are decided under C05/C07/C08/C13/C14/C15/C20.',
 }
-for _p in ['C04', 'C06', 'C09', 'C10', 'C13', 'C14', 'C17', 'C18']:
+for _p in ['C06', 'C10', 'C13', 'C14', 'C17', 'C18']:
     NOT_APPLICABLE.setdefault(_p, 'not reached yet: kernel designed in DESIGN.md §5 but its contracts are not built; not claimed')
+NOT_APPLICABLE['C04'] = ('soundness of the STARK / LogUp / FRI argument behind "an accepted proof attests a satisfying assignment" is a cryptographic statement no per-function contract here can state; '
+                         'its contract-expressible parts are decided elsewhere: bus roles C09 (whose finding C09-alias-double-creator is also a C04 violation), row relations C11, metadata C16')
+
